@@ -183,7 +183,7 @@ def run(run):
     thorough = run.tier == "thorough"
     cc = []
     for w in ((1, 2, 3) if thorough else (1, 2)):
-        for items in weight_dicts(w, 3 if w <= 2 else 1):
+        for items in weight_dicts(w, 3 if w <= 2 else (2 if thorough else 1)):
             for style in ("tuple", "str", "comma"):
                 cc.append({"items": items, "style": style, "valid": True})
             # subsets of the keys (zero-weight keys dropped) and reversed insertion order
@@ -200,7 +200,7 @@ def run(run):
     cc.append({"items": [[[-1, 1], 1]], "style": "tuple", "valid": False, "why": "negative key entry"})
     secs = [Section("constructor", cc, ctor_case, desc="normalisation, proportions, caller's dict untouched, rejections")]
     mc_ = []
-    W = 4
+    W = 5 if thorough else 4
     for w in range(1, W + 1):
         B = [list(b) for b in itertools.product((0, 1), repeat=w)]
         # distinct weights (so every mis-projection shows), a sparse support, and a uniform one
@@ -215,7 +215,7 @@ def run(run):
         nz = [it for it in items if it[1] > 0]
         pool.append(nz)
     pool = pool[:: (1 if thorough else 2)]
-    base = pool[: (70 if thorough else 28)]
+    base = pool[: (200 if thorough else 28)]
     rev = [p[::-1] for p in base if len(p) >= 2][:: (2 if thorough else 3)]          # equal distributions, other insertion order
     rot = [p[1:] + p[:1] for p in base if len(p) >= 3][::3]
     zero = [[[b, x] for b, x in p] + [[[1, 1], 0]] for p in base[:6] if all(b != [1, 1] for b, _ in p)]   # explicit zero-weight key
